@@ -162,3 +162,22 @@ contract("artap.algorithm_swarm:SwarmAlgorithm.init_pbest", props=["C18"],
          loops={1: ["forall(lambda i: population[i].features['best_cost'] is population[i].costs_signed and "
                     "population[i].features['best_vector'] is population[i].vector, 0, _k)"]},
          modifies=["each(population).features.best_cost", "each(population).features.best_vector"])
+
+# ---- update_global_best: the leader archive stays bounded by the population size and mutually non-dominated ------------------
+def _ugb(cls):
+    contract("artap.algorithm_swarm:%s.update_global_best" % cls, props=["C18"],
+             types={"swarm": "List[Ref[Individual]]"},
+             requires=["valid(self.leaders) and valid(self.leaders._contents) and valid(self.options) and valid(swarm)",
+                       "self.options['max_population_size'] >= 0", "swarm is not self.leaders._contents",
+                       "front_wf(swarm)", "distinct_list(swarm)", "arch_inv(self.leaders)", "pool_wf(self.leaders, swarm)"],
+             ensures=["len(self.leaders._contents) <= self.options['max_population_size']", "arch_inv(self.leaders)",
+                      # every leader is an old leader or a member of the swarm
+                      "forall(lambda i: exists(lambda t: self.leaders._contents[i] is old(swarm[t]), 0, old(len(swarm))) or "
+                      "exists(lambda j: self.leaders._contents[i] is old(self.leaders._contents[j]), 0, old(len(self.leaders._contents))), "
+                      "0, len(self.leaders._contents))"],
+             modifies=["list(swarm)", "each(swarm).features.crowding_distance", "self.leaders._contents", "list(self.leaders._contents)"],
+             allocates=["$list.Ref", "$len.Ref"])
+
+
+_ugb("SMPSO")
+_ugb("PSOGA")
